@@ -196,7 +196,8 @@ def _must_reset(ctx, f, field, stmts, depth=0):
 def writer_obligations(ctx, clause):
     p = ctx.p
     obs = []
-    wl, wb, ser, rst, fl = (p.func(SX + n) for n in ("_write_line", "_write_lines_buffer", "serialize_shapes", "_reset_target_file", "_flush"))
+    wl, wb, ser, fl = (p.func(SX + n) for n in ("_write_line", "_write_lines_buffer", "serialize_shapes", "_flush"))
+    rst = p.funcs.get(SX + "_reset_target_file")
     # 1. size-triggered flush in _write_line is followed by a reset on every path
     flush_ifs = [x for x in walk_own(wl.node) if isinstance(x, ast.If) and any(
         isinstance(y, ast.Call) and isinstance(y.func, ast.Attribute) and y.func.attr == "_write_lines_buffer" for y in ast.walk(x))]
@@ -218,7 +219,7 @@ def writer_obligations(ctx, clause):
                   "each flush appends to the target file" if ok else
                   "_write_lines_buffer opens the target with mode(s) %s: it runs once per 5000 lines, so every flush after the first "
                   "overwrites what was written before" % wb_modes))
-    rs_modes = [m for _, m in opens(rst)]
+    rs_modes = [m for _, m in opens(rst)] if rst is not None else []
     first_call = None
     for st in ser.node.body:
         if isinstance(st, ast.Expr) and isinstance(st.value, ast.Constant):
